@@ -31,7 +31,7 @@ struct Decl {
     refs: Vec<String>,
 }
 
-fn strip_comments(s: &str) -> String {
+pub fn strip_comments(s: &str) -> String {
     let mut out = String::new();
     let mut rest = s;
     while let Some(i) = rest.find("/*") {
@@ -603,6 +603,53 @@ impl C09 {
             } else {
                 None
             }
+        };
+        // ---- directories: some modules move into lib/ (every specifier is rewritten relative to the file it is written
+        // in; now and then a file of the same name stays behind in the root as a decoy).  Relative specifiers, import type
+        // expressions included, are resolved from the file they are written in, not from the entry.
+        let (out_files, negative) = if s.chance(1, 3) {
+            let mut moved: BTreeMap<String, String> = BTreeMap::new();
+            for (n, _) in &out_files {
+                if n != "entry.ts" && s.chance(1, 2) {
+                    moved.insert(n.clone(), format!("lib/{}", n));
+                }
+            }
+            if moved.is_empty() {
+                (out_files, negative)
+            } else {
+                styles.push("subdirectory".into());
+                let decoys: Vec<String> = moved.keys().filter(|_| s.chance(1, 3)).cloned().collect();
+                let all_names: Vec<String> = out_files.iter().map(|(n, _)| n.clone()).collect();
+                let relocate = |files: Vec<(String, String)>| -> Vec<(String, String)> {
+                    let mut out: Vec<(String, String)> = vec![];
+                    for (n, text) in &files {
+                        let new_name = moved.get(n).cloned().unwrap_or_else(|| n.clone());
+                        let from_lib = new_name.starts_with("lib/");
+                        let mut t = text.clone();
+                        for target in &all_names {
+                            let base = target.trim_end_matches(".ts");
+                            let to_lib = moved.contains_key(target);
+                            let spec = match (from_lib, to_lib) {
+                                (false, false) | (true, true) => format!("./{}", base),
+                                (false, true) => format!("./lib/{}", base),
+                                (true, false) => format!("../{}", base),
+                            };
+                            t = t.replace(&format!("\"./{}\"", base), &format!("\"{}\"", spec));
+                        }
+                        out.push((new_name, t));
+                    }
+                    for d in &decoys {
+                        if files.iter().any(|(n, _)| n == d) {
+                            out.push((d.clone(), "export type UnrelatedDecoy = { decoy: true };\n".to_string()));
+                        }
+                    }
+                    out
+                };
+                let neg = negative.map(|(v, why)| (relocate(v), why));
+                (relocate(out_files), neg)
+            }
+        } else {
+            (out_files, negative)
         };
         C09Case { env, roots, single, files: out_files, styles, negative, values }
     }
